@@ -763,11 +763,14 @@ func (c *Ctx) rulesC04drop() {
 			continue
 		}
 		var q []ssa.Instruction
-		for _, s := range c.sitesIn(f, pm+":Machine.queueMutation") {
-			q = append(q, s)
-		}
-		for _, s := range c.sitesIn(f, pm+":Machine.PrependMut") {
-			q = append(q, s)
+		if f.Name() != "PrependMut" {
+			for _, s := range c.queueSitesIn(f, c.fnOpt(pm+":Machine.queueMutation"), c.fnOpt(pm+":Machine.PrependMut")) {
+				q = append(q, s)
+			}
+		} else {
+			for _, s := range c.sitesIn(f, pm+":Machine.PrependMut") {
+				q = append(q, s)
+			}
 		}
 		if len(q) == 0 {
 			continue
